@@ -2,7 +2,9 @@
 
 "enc" cases: universe tags (spec/Encoding.tla UTag) are built as fresh objects every time they are used, so nothing
 can succeed by object identity.  "pair" cases: two separately built objects of one of the eight hashable classes,
-chosen by field-choice vectors over the small domains in FIELDS.
+chosen by field-choice vectors over the small domains in FIELDS, each brought about by a provenance (fresh constructor;
+donor hashed, then model_copy(update=...); donor hashed, then attribute assignment; hashed, then model_copy(deep=True);
+hashed, then model_validate(model_dump(exclude_unset=True))).
 """
 import datetime
 import uuid as _uuid
@@ -27,8 +29,10 @@ POOL = 12
 CHUNK = 4000
 RULE = ("enc: every (injective vocabulary of <= 3 of 5 (quick) / 6 (thorough) tags over terms sharing a name or a label, tag list of <= 3 with "
         "repeats and outsiders, two quarter-score patterns) of the TLA+ enumeration, plus random vocabularies of <= 8 of 12 "
-        "tags with lists of <= 8; pair: every ordered pair of objects of the eight hashable classes over two- to four-value "
-        "field domains; non-trivial = enc cases with a non-empty vocabulary and list, pair cases whose objects compare equal "
+        "tags with lists of <= 8; pair: every ordered pair of freshly built objects of the eight hashable classes over two- to "
+        "four-value field domains, plus model-equal (quick) / at most one field apart (thorough) pairs whose members were "
+        "derived from an already hashed object by model_copy(update), attribute assignment, deep copy or a dump/validate "
+        "round trip; non-trivial = enc cases with a non-empty vocabulary and list, pair cases whose objects compare equal "
         "or share a hash-relevant field")
 TRUSTED_BASE = ["checks/c19.py (build tags/objects from tables, call the encoders, ==, hash(), set/dict operations; "
                 "scores read back as exact quarter ticks)"]
@@ -115,37 +119,69 @@ def _clip(k):
     return data.Clip(uuid=_uuid.UUID(int=0x300 + k), recording=_rec(1), start_time=0.0, end_time=float(k))
 
 
+# FIELDS[cls] = (model class, [(field name, choice -> value)], fixed keyword arguments); values are built afresh per call
+_FEAT = lambda: data.Feature(term=_term(1), value=1.5)
+_PTAG = lambda: data.PredictedTag(tag=_tag(1), score=0.5)
+FIELDS = {
+    1: (data.Term, [("name", lambda k: ["n1", "n2"][k - 1]), ("label", lambda k: ["l1", "l2"][k - 1]),
+                    ("definition", lambda k: ["d1", "d2"][k - 1]), ("extra_note", lambda k: None if k == 1 else "e")], {}),
+    2: (data.Tag, [("term", _term), ("value", lambda k: _VALUES[k - 1])], {}),
+    3: (data.Feature, [("term", _term), ("value", lambda k: [0.0, -0.0, 0.5][k - 1])], {}),
+    4: (data.Note, [("uuid", lambda k: _U[k - 1]), ("message", lambda k: ["m1", "m2"][k - 1]),
+                    ("is_issue", lambda k: k == 2), ("created_on", lambda k: _T[k - 1])], {}),
+    5: (data.SoundEvent, [("uuid", lambda k: _U[k - 1]), ("geometry", _geom), ("recording", _rec),
+                          ("features", lambda k: [] if k == 1 else [_FEAT()])], {}),
+    6: (data.SoundEventAnnotation, [("uuid", lambda k: _U[k - 1]), ("sound_event", _se),
+                                    ("tags", lambda k: [] if k == 1 else [_tag(1)]),
+                                    ("notes", lambda k: [] if k == 1 else [data.Note(uuid=_U[0], message="m", created_on=_T[0])])],
+        {"created_on": _T[0]}),
+    7: (data.SoundEventPrediction, [("uuid", lambda k: _U[k - 1]), ("sound_event", _se),
+                                    ("score", lambda k: [0.5, 1.0][k - 1]), ("tags", lambda k: [] if k == 1 else [_PTAG()])], {}),
+    8: (data.ClipPrediction, [("uuid", lambda k: _U[k - 1]), ("clip", _clip),
+                              ("tags", lambda k: [] if k == 1 else [_PTAG()]),
+                              ("features", lambda k: [] if k == 1 else [_FEAT()])], {}),
+}
+_DOM = {1: [2, 2, 2, 2], 2: [4, 2], 3: [4, 3], 4: [2, 2, 2, 2], 5: [2, 2, 2, 2], 6: [2, 2, 2, 2], 7: [2, 2, 2, 2], 8: [2, 2, 2, 2]}
+
+
 def _build(cls, x):
-    if cls == 1:      # Term: name, label, definition, extra attribute
-        kw = dict(name=["n1", "n2"][x[0] - 1], label=["l1", "l2"][x[1] - 1], definition=["d1", "d2"][x[2] - 1])
-        if x[3] == 2:
-            kw["extra_note"] = "e"
-        return data.Term(**kw)
-    if cls == 2:      # Tag: term, value
-        return data.Tag(term=_term(x[0]), value=_VALUES[x[1] - 1])
-    if cls == 3:      # Feature: term, value
-        return data.Feature(term=_term(x[0]), value=[0.0, -0.0, 0.5][x[1] - 1])
-    if cls == 4:      # Note: uuid, message, is_issue, created_on
-        return data.Note(uuid=_U[x[0] - 1], message=["m1", "m2"][x[1] - 1], is_issue=(x[2] == 2), created_on=_T[x[3] - 1])
-    if cls == 5:      # SoundEvent: uuid, geometry, recording, features
-        return data.SoundEvent(uuid=_U[x[0] - 1], geometry=_geom(x[1]), recording=_rec(x[2]),
-                               features=[] if x[3] == 1 else [data.Feature(term=_term(1), value=1.5)])
-    if cls == 6:      # SoundEventAnnotation: uuid, sound_event, tags, notes
-        return data.SoundEventAnnotation(uuid=_U[x[0] - 1], sound_event=_se(x[1]), created_on=_T[0],
-                                         tags=[] if x[2] == 1 else [_tag(1)],
-                                         notes=[] if x[3] == 1 else [data.Note(uuid=_U[0], message="m", created_on=_T[0])])
-    if cls == 7:      # SoundEventPrediction: uuid, sound_event, score, tags
-        return data.SoundEventPrediction(uuid=_U[x[0] - 1], sound_event=_se(x[1]), score=[0.5, 1.0][x[2] - 1],
-                                         tags=[] if x[3] == 1 else [data.PredictedTag(tag=_tag(1), score=0.5)])
-    if cls == 8:      # ClipPrediction: uuid, clip, tags, features
-        return data.ClipPrediction(uuid=_U[x[0] - 1], clip=_clip(x[1]),
-                                   tags=[] if x[2] == 1 else [data.PredictedTag(tag=_tag(1), score=0.5)],
-                                   features=[] if x[3] == 1 else [data.Feature(term=_term(1), value=1.5)])
-    raise ValueError(cls)
+    model, fields, fixed = FIELDS[cls]
+    kw = dict(fixed)
+    for (name, mk), k in zip(fields, x):
+        v = mk(k)
+        if not (cls == 1 and name == "extra_note" and v is None):      # Term's extra attribute: present or not
+            kw[name] = v
+    return model(**kw)
+
+
+def _realise(cls, x, prov):
+    """Bring about an object holding the fields of x by the history prov = {"mode", "f"} (spec/Encoding.tla Provs).
+    Every source object is hashed (and used as a set member) BEFORE the derivation step."""
+    mode, f = prov["mode"], prov["f"]
+    if mode == "fresh":
+        return _build(cls, x)
+    model, fields, _ = FIELDS[cls]
+    if mode in ("deep_copy", "revalidate"):
+        src = _build(cls, x)
+        hash(src)
+        _ = {src}
+        return src.model_copy(deep=True) if mode == "deep_copy" else model.model_validate(src.model_dump(exclude_unset=True))
+    donor_x = list(x)
+    donor_x[f - 1] = x[f - 1] % _DOM[cls][f - 1] + 1                     # Encoding!Donor
+    donor = _build(cls, donor_x)
+    hash(donor)
+    _ = {donor}
+    name, mk = fields[f - 1]
+    if mode == "copy_update":
+        return donor.model_copy(update={name: mk(x[f - 1])})
+    if mode == "assign":
+        setattr(donor, name, mk(x[f - 1]))
+        return donor
+    raise ValueError(mode)
 
 
 def _pair(case):
-    x, y = _build(case["cls"], case["x"]), _build(case["cls"], case["y"])
+    x, y = _realise(case["cls"], case["x"], case["px"]), _realise(case["cls"], case["y"], case["py"])
     eq, eq_rev = bool(x == y), bool(y == x)
     s = {x}
     in_set = y in s
